@@ -330,6 +330,8 @@ DEFAULT_OPTS = {
     'highlight': None, 'lowlight': None,
     # oracle-only options (no Lean model)
     'child_config': None, 'extra_flags': None, 'debug': False,
+    # a custom child renderer (extra_flags['render_value_fn']) that returns None where the filter accepts
+    'hide_values': None,
 }
 MODEL_OPTS = ('enable_summary', 'enable_summary_for_str', 'max_summary_len_for_str', 'enable_summary_tooltip',
               'enable_key_tooltip', 'key_style', 'collapse_level', 'uncollapse', 'name', 'include_keys',
@@ -340,6 +342,16 @@ def full_opts(o):
   d = dict(DEFAULT_OPTS)
   d.update(o)
   return d
+
+
+def path_only_pred(pred):
+  if 'type' in pred:
+    return False
+  if 'not' in pred:
+    return path_only_pred(pred['not'])
+  if 'or' in pred:
+    return all(path_only_pred(q) for q in pred['or'])
+  return True
 
 
 def is_pred(x):
@@ -622,11 +634,51 @@ def gen_xopts(rng, value):
                                    {'hide_frozen': False}])
   if rng.chance(0.12):
     o['debug'] = True
+  if rng.chance(0.15):
+    o['hide_values'] = {'pred': gen_pred(rng, value)}
   return o
 
 
 SCOPE_OPTS = ('enable_summary', 'enable_summary_for_str', 'max_summary_len_for_str', 'enable_summary_tooltip',
               'enable_key_tooltip', 'key_style', 'collapse_level', 'include_keys', 'exclude_keys')
+
+
+def containers_of(v, prefix=()):
+  out = []
+  ks = child_keys(v)
+  if ks:
+    out.append((list(prefix), v))
+    for k in ks:
+      out += containers_of(child(v, k), prefix + (k,))
+  return out
+
+
+def gen_mixed(rng):
+  """Containers whose children mix summary-style and label-style keys (callable key_style) while a
+  custom child renderer hides subsets of them: all label-style children, some, all summary-style ones."""
+  while True:
+    v = gen_value(rng, rng.randint(1, 3))
+    cs = [(p, n) for p, n in containers_of(v) if n['t'] in ('dict', 'pgdict', 'obj') and len(child_keys(n)) >= 2]
+    if cs:
+      break
+  path, node = rng.choice(cs)
+  keys = child_keys(node)
+  labels = rng.sample(keys, rng.randint(1, len(keys) - 1))
+  summaries = [k for k in keys if k not in labels]
+  mode = rng.below(5)
+  hidden = {0: labels, 1: rng.sample(labels, rng.randint(1, len(labels))), 2: summaries,
+            3: rng.sample(keys, rng.randint(1, len(keys))), 4: keys}[mode]
+  o = gen_opts(rng, v) if rng.chance(0.5) else dict(DEFAULT_OPTS)
+  o['include_keys'] = None
+  o['exclude_keys'] = None
+  o['key_style'] = {'pred': {'paths': [path + [k] for k in labels]}}
+  hp = {'paths': [path + [k] for k in hidden]}
+  if rng.chance(0.25):
+    hp = {'or': [hp, gen_pred(rng, v)]}
+  o['hide_values'] = {'pred': hp}
+  if rng.chance(0.3):
+    o['collapse_level'] = None
+  return {'op': 'render', 'value': v, 'opts': o}
 
 
 def gen_history(rng):
@@ -675,6 +727,16 @@ def merged_opts(case, step):
 
 
 def gen_control(rng):
+  k = rng.below(6)
+  if k >= 4:
+    n = rng.randint(1, 3)
+    lab = lambda: {'text': gen_string(rng), 'tooltip': gen_string(rng) if rng.chance(0.4) else None,
+                   'css': [rng.choice(CSS) for _ in range(rng.below(2))], 'badge': rng.chance(0.3)}
+    if k == 4:
+      return {'op': 'control', 'kind': 'label_group', 'labels': [lab() for _ in range(n)],
+              'name': lab() if rng.chance(0.7) else None, 'css': [rng.choice(CSS) for _ in range(rng.below(2))]}
+    return {'op': 'control', 'kind': 'badge', 'text': gen_string(rng),
+            'tooltip': gen_string(rng) if rng.chance(0.5) else None}
   k = rng.below(4)
   css = lambda: [rng.choice(CSS) for _ in range(rng.below(3))]
   styles = lambda: [[k2, rng.choice(['red', '3px', None])] for k2 in rng.sample(['color', 'margin_top', 'width'], rng.below(3))]
@@ -948,6 +1010,8 @@ class C20(Prop):
       yield gen_update(rng)
     for _ in range(150 if quick else 2500):
       yield gen_history(rng)
+    for _ in range(200 if quick else 4000):
+      yield gen_mixed(rng)
     for _ in range(6 if quick else 40):
       h = gen_history(rng)
       if not h['outer']:
@@ -991,6 +1055,8 @@ class C20(Prop):
         if is_pred(o[f]):
           wire_opts[g] = wire_pred(o[f]['pred'])
           wire_opts[f] = dflt
+      if o['hide_values'] is not None:
+        wire_opts['hide_p'] = wire_pred(o['hide_values']['pred'])
       for f in ('highlight', 'lowlight'):
         wire_opts[f] = [] if o[f] is None else [[key_wire(k) for k in q] for q in o[f]['pred']['paths']]
       for f in ('key_color', 'summary_color'):
@@ -1037,6 +1103,8 @@ class C20(Prop):
               'id': ocps(id), 'tip_id': ocps(tip_id), 'css': [cps(x) for x in css], 'styles': kvs(styles)}
 
     k = case['kind']
+    if k in ('label_group', 'badge'):
+      return None            # oracle only
     if k == 'label':
       inter = case.get('interactive', False)
       lid = case.get('id') or ('control-0' if inter else None)
@@ -1082,17 +1150,12 @@ class C20(Prop):
     o = full_opts(o)
     if o['child_config'] is not None or o['extra_flags'] is not None or o['debug']:
       return False
+    if o['hide_values'] is not None and not path_only_pred(o['hide_values']['pred']):
+      return False
     if any(is_pred(o[k]) for k in ('key_color', 'summary_color')):
       return False
 
-    def path_only(pred):
-      if 'type' in pred:
-        return False
-      if 'not' in pred:
-        return path_only(pred['not'])
-      if 'or' in pred:
-        return all(path_only(q) for q in pred['or'])
-      return True
+    path_only = path_only_pred
 
     for f in ('include_keys', 'exclude_keys', 'key_style', 'uncollapse'):
       if is_pred(o[f]) and not path_only(o[f]['pred']):
@@ -1253,6 +1316,16 @@ class C20(Prop):
       kw['child_config'] = cc
     if o['extra_flags'] is not None:
       kw['extra_flags'] = dict(o['extra_flags'])
+    if o['hide_values'] is not None:
+      from pyglove.core.views.html.tree_view import HtmlTreeView
+      hide = py_pred(o['hide_values']['pred'], rekey)
+
+      def render_value_fn(view, *, value, name, parent, root_path, **kwargs):
+        if hide(root_path, value, parent):
+          return None
+        return HtmlTreeView.render(view, value=value, name=name, parent=parent, root_path=root_path, **kwargs)
+
+      kw.setdefault('extra_flags', {})['render_value_fn'] = render_value_fn
     if o['debug']:
       kw['debug'] = True
     return kw
@@ -1560,6 +1633,8 @@ class C20(Prop):
       seq = t in ('list', 'tuple', 'pglist')
       for k in displayed_children(spec, path):
         c = child(spec, k)
+        if o['hide_values'] is not None and eval_pred(o['hide_values']['pred'], path + [k], c):
+          continue            # the custom renderer returns nothing for this child: neither key nor subtree
         ks = o['key_style']
         if is_pred(ks):
           ks = 'label' if eval_pred(ks['pred'], path + [k], c) else 'summary'
@@ -1590,6 +1665,14 @@ class C20(Prop):
                               link=case['link'], target=case.get('target'), id=case.get('id'),
                               css_classes=list(case.get('css', [])), styles=st(case.get('styles')),
                               interactive=case.get('interactive', False))
+      if k == 'badge':
+        return controls.Badge(f(case['text']), tooltip=None if case['tooltip'] is None else f(case['tooltip']))
+      if k == 'label_group':
+        mk = lambda l: (controls.Badge if l.get('badge') else controls.Label)(
+            f(l['text']), tooltip=None if l['tooltip'] is None else f(l['tooltip']), css_classes=list(l.get('css', [])))
+        return controls.LabelGroup([mk(l) for l in case['labels']],
+                                   name=None if case['name'] is None else mk(case['name']),
+                                   css_classes=list(case.get('css', [])))
       if k == 'tooltip':
         return controls.Tooltip(f(case['text']), for_element='.x', id=case.get('id'),
                                 css_classes=list(case.get('css', [])), styles=st(case.get('styles')))
@@ -1610,24 +1693,56 @@ class C20(Prop):
           selected=case.get('selected', 0), tab_position='left' if case.get('left') else 'top',
           id=case.get('id'), css_classes=list(case.get('css', [])), styles=st(case.get('styles')))
 
+    def snap(v):
+      """The symbolic value as data: every field of every nested member (pg.to_json with the
+      opaque Html leaves replaced by what they say, so that caches inside them do not count)."""
+      if isinstance(v, pg.Symbolic):
+        return [type(v).__name__, [[str(k), snap(x)] for k, x in v.sym_items()]]
+      if isinstance(v, pg.Html):
+        return ['Html', v.to_str()]
+      if isinstance(v, (list, tuple)):
+        return [type(v).__name__] + [snap(x) for x in v]
+      if isinstance(v, dict):
+        return ['dict'] + [[str(k), snap(x)] for k, x in v.items()]
+      return repr(v)
+
     try:
-      h = build(lambda s: s).to_html_str(content_only=True)
+      ctl = build(lambda s: s)
+      snap0 = snap(ctl)
+      json0 = pg.to_json_str(ctl) if case['kind'] != 'tab' else None    # Tab.content is an opaque (pickled) Html
+      h = ctl.to_html_str(content_only=True)
+      snap1, eq1 = snap(ctl), (json0 is None or pg.to_json_str(ctl) == json0)
+      h2 = ctl.to_html_str(content_only=True)
+      ctl.to_html()
+      snap2, eq2 = snap(ctl), (json0 is None or pg.to_json_str(ctl) == json0)
       b = build(lambda s: 'x' * len(s)).to_html_str(content_only=True)
     except Exception as e:   # pylint: disable=broad-except
       return {'error': type(e).__name__, 'message': str(e)[:200]}
+    modified = None
+    if snap1 != snap0 or not eq1:
+      modified = 'after one render'
+    elif snap2 != snap0 or not eq2:
+      modified = 'after further renders'
+    rerender_same = canon_ids(h2) == canon_ids(h)
     h = canon_ids(h)
     tree, why = strict_parse(h)
     btree, bwhy = strict_parse(b)
     out = {'why': why, 'benign_ok': btree is not None, 'ok': tree is not None,
+           'modified': modified, 'rerender_same': rerender_same,
            'model': {'html': h, 'doc': None if tree is None else strip_doc(tree)}}
     if tree is not None and btree is not None:
       sk = lambda t: [[n[0], [k for k, _ in n[1]], sk(n[2])] for n in t if isinstance(n, list)]
       out['skeleton_equal'] = sk(tree) == sk(btree)
       texts = texts_of(tree)
-      want = [case['text']] if case['kind'] in ('label', 'tooltip') else (
+      if case['kind'] == 'label_group':
+        ls = case['labels'] + ([case['name']] if case['name'] else [])
+        want_lg = [l['text'] for l in ls] + [l['tooltip'] for l in ls if l['tooltip']]
+        out['missing'] = [w for w in want_lg if w and w not in texts]
+        return out
+      want = [case['text']] if case['kind'] in ('label', 'tooltip', 'badge') else (
           case['labels'] if case['kind'] == 'tab' else [])
       out['missing'] = [w for w in want if w and w not in texts]
-      if case['kind'] == 'label' and case['tooltip']:
+      if case['kind'] in ('label', 'badge') and case['tooltip']:
         out['missing'] += [w for w in [case['tooltip']] if w not in texts]
       if case['kind'] == 'tab':
         out['missing'] += [w for w in (case.get('tooltips') or []) if w and w not in texts]
@@ -1836,6 +1951,12 @@ class C20(Prop):
       return {'signature': 'control-data-changes-structure:' + k, 'what': 'structure differs from benign twin'}
     if out['missing']:
       return {'signature': 'control-text-missing:' + k, 'what': 'texts %r not in output' % out['missing']}
+    if out.get('modified'):
+      return {'signature': 'value-modified:' + k,
+              'what': 'rendering the %s control modified it (fields of the control and its nested members / pg.to_json_str, before vs after) %s' % (
+                  k, out['modified'])}
+    if not out.get('rerender_same', True):
+      return {'signature': 'control-rerender-differs:' + k, 'what': 'a second render of the same control differs from the first'}
     return None
 
   # -- bookkeeping ---------------------------------------------------------------------------
@@ -1857,7 +1978,8 @@ class C20(Prop):
         ss.append(case['opts']['name'])
       return any(has_meta(s) for s in ss)
     return any(has_meta(s) for s in [case.get('text') or '', case.get('tooltip') or ''] + case.get('names', [])
-               + case.get('labels', []) + [t or '' for t in case.get('tooltips') or []])
+               + [l if isinstance(l, str) else l['text'] for l in case.get('labels', [])]
+               + [t or '' for t in case.get('tooltips') or []])
 
   def describe(self, case, out):
     op = case['op']
@@ -1916,7 +2038,7 @@ class C20(Prop):
         if o[k]:
           h.append('opt:' + k)
       for k in ('title', 'css_classes', 'key_color', 'summary_color', 'highlight', 'lowlight', 'child_config',
-                'extra_flags', 'debug'):
+                'extra_flags', 'debug', 'hide_values'):
         if o[k]:
           h.append('opt:' + k + (':callable' if is_pred(o[k]) and k.endswith('color') else ''))
       for k in ('include_keys', 'exclude_keys', 'key_style', 'uncollapse'):
